@@ -24,13 +24,18 @@ EXPLANATION = (
     "its complete decision table is derived from the statement CFG by exact "
     "finite-domain interpretation of the branch conditions (every state, every "
     "octet class; conditions outside that vocabulary are followed both ways), "
-    "with forward substitution of locals.  The rules compare the two tables "
+    "with forward substitution of locals.  Calls to functions of sercomm.c that did "
+    "not exist at the pinned commit (helpers split out of a step) are followed: the "
+    "helper's statements are walked on its own CFG as part of the caller's path with "
+    "the parameters bound to the argument terms, and the returned term replaces the call, "
+    "so a step is decided on what it does, not on which function the statements stand in.  "
+    "The rules compare the two tables "
     "(escaped set, escape octet, XOR constant, flag positions, un-escaping in "
     "every frame-interior state, address/control/payload order), and use CFG "
     "dominance / guard literals for the tailroom test before every msgb_put, "
     "the overflow reset, the receive capacity (folded arguments of "
     "msgb_alloc_headroom in sercomm_alloc_msgb), the index bounds of "
-    "dlci_handler[]/dlci_queues[], the queue scan (walked under both outcomes "
+    "dlci_handler[]/dlci_queues[], the queue scan (in sercomm_drv_pull or a followed helper; walked under both outcomes "
     "of the dequeue for the first and the generic iteration: ascending from 0, "
     "stops at the first non-empty queue), FIFO enqueue/dequeue in msgb.c, and "
     "who-may-write scans of the receive buffer.  At the closing flag the step may "
@@ -156,7 +161,7 @@ def ref_id(n):
 
 class St:
     """State of one walked path."""
-    __slots__ = ("scur", "mask", "pos", "env", "assume", "events", "ret")
+    __slots__ = ("scur", "mask", "pos", "env", "assume", "events", "ret", "frames", "nser", "rtruth")
 
     def __init__(self, scur, assume):
         self.scur = scur          # current value of the state variable
@@ -166,21 +171,38 @@ class St:
         self.assume = dict(assume)
         self.events = []
         self.ret = None
+        self.frames = []          # helper calls being followed: (call node, CallExpr, helper name, serial)
+        self.nser = 0
+        self.rtruth = None        # truth of the value a followed helper is returning (None: unknown)
 
     def copy(self):
         s = St(self.scur, self.assume)
         s.mask, s.pos, s.ret = self.mask, self.pos, self.ret
+        s.frames, s.nser, s.rtruth = list(self.frames), self.nser, self.rtruth
         s.env = dict(self.env)
         s.events = list(self.events)
         return s
 
 
+# Functions of sercomm.c at the pinned commit.  The rules are anchored on these names; any other function
+# defined in sercomm.c is a helper introduced by a later restructuring: the step interpreter FOLLOWS calls to
+# such helpers (parameters bound to the argument terms, the helper's statements walked on its own CFG as part of
+# the caller's path, the returned term substituted for the call), so that a step is decided on what it does,
+# not on which function the statements are written in.
+BASELINE_FNS = frozenset((
+    "sercomm_lock", "sercomm_unlock", "sercomm_bind_uart", "sercomm_get_uart", "sercomm_init",
+    "sercomm_initialized", "sercomm_sendmsg", "sercomm_tx_queue_depth", "sercomm_drv_pull",
+    "sercomm_register_rx_cb", "dispatch_rx_msg", "sercomm_drv_rx_char"))
+MAX_HELPER_DEPTH = 4
+
+
 class Step:
     """Exact interpretation of one call of a comparison-only step function
     over (state value, octet value).  Conditions that mention neither are
-    followed both ways (recorded as 'fork' events)."""
+    followed both ways (recorded as 'fork' events).  Calls to helper
+    functions (own functions outside BASELINE_FNS) are followed."""
 
-    def __init__(self, tu, fname, subject, state_lv, ptr=None):
+    def __init__(self, tu, fname, subject, state_lv, ptr=None, subject_id=None):
         self.tu = tu
         self.fname = fname
         self.f = tu.func(fname)
@@ -188,15 +210,166 @@ class Step:
         self.subject = subject      # canonical text of the octet lvalue
         self.state_lv = state_lv
         self.ptr = ptr              # canonical text of the octet pointer (transmitter)
+        self.subject_id = subject_id  # declaration id of the octet when it is a parameter / local
         self.relational = False
+        self._v = 0
+        self._helpers = None
+        self._graphs = {}
+        self._pure = {}
+        self._ceff = {}
         self.cond_calls = False     # record calls made inside branch conditions as call events
         self._eff = {}
         self.params = [p.get("id") for p in tu.fparams(self.f)]
         self.pnames = [p.get("name") for p in tu.fparams(self.f)]
 
+    # -- helper functions --------------------------------------------------
+    def helpers(self):
+        """name -> FunctionDecl of the functions of the main file that did
+        not exist at the pinned commit (calls to them are followed)."""
+        if self._helpers is None:
+            self._helpers = {n: f for n, f in own_functions(self.tu).items()
+                             if n not in BASELINE_FNS and n != self.fname}
+        return self._helpers
+
+    def helper_of(self, call):
+        f = strip(kids(call)[0], casts=True) if kids(call) else None
+        if kind(f) == "DeclRefExpr":
+            n = f.get("referencedDecl", {}).get("name")
+            if n in self.helpers():
+                return n
+        return None
+
+    def graph_of(self, name):
+        """Statement CFG of a helper (node ids made disjoint from every other graph of this step)."""
+        g = self._graphs.get(name)
+        if g is None:
+            g = CCFG(self.tu, self.helpers()[name])
+            base = 100000 * (len(self._graphs) + 1)
+            for n in g.nodes:
+                n.id += base
+            self._graphs[name] = g
+        return g
+
+    def reachable_helpers(self):
+        """Helpers called (transitively) from the step function, in call order."""
+        out, work = [], [self.f]
+        while work:
+            fd = work.pop(0)
+            for n in walk(self.tu.body(fd)):
+                if kind(n) == "CallExpr":
+                    h = self.helper_of(n)
+                    if h is not None and h not in out:
+                        out.append(h)
+                        work.append(self.helpers()[h])
+        return out
+
+    def pure(self, name, _stack=()):
+        """A helper that writes nothing but its own locals and calls only
+        such helpers: evaluating it early (or not at all) changes nothing."""
+        r = self._pure.get(name)
+        if r is not None:
+            return r
+        if name in _stack:
+            return False
+        fd = self.helpers()[name]
+        own = {p.get("id") for p in self.tu.fparams(fd)}
+        own |= {n.get("id") for n in walk(self.tu.body(fd)) if kind(n) == "VarDecl" and n.get("storageClass") != "static"}
+        r = True
+        for e in effects(self.tu.body(fd)):
+            if e[0] in ("store", "compound", "incdec"):
+                if kind(e[1]) != "DeclRefExpr" or ref_id(e[1]) not in own:
+                    r = False
+            elif e[0] == "call":
+                h = self.helper_of(e[3])
+                if h is None or not self.pure(h, _stack + (name,)):
+                    r = False
+        self._pure[name] = r
+        return r
+
+    def eval_effects(self, node):
+        """Effects of the expression a CFG node evaluates (the condition of a branch node)."""
+        r = self._ceff.get(node.id)
+        if r is None:
+            if node.kind in ("cond", "switch"):
+                r = effects(node.cond) if node.cond is not None else []
+            elif node.kind == "stmt":
+                r = self.node_effects(node)
+            else:
+                r = []
+            self._ceff[node.id] = r
+        return r
+
+    def pending_call(self, node, st):
+        """First call to a helper in the node's evaluation order that has not been followed yet."""
+        for e in self.eval_effects(node):
+            if e[0] == "call" and ("ret", id(e[3])) not in st.env and self.helper_of(e[3]) is not None:
+                return e
+        return None
+
+    def forget_calls(self, node, st):
+        for e in self.eval_effects(node):
+            if e[0] == "call":
+                st.env.pop(("ret", id(e[3])), None)
+                st.env.pop(("rett", id(e[3])), None)
+
+    def enter(self, node, e, st):
+        """Follow the helper call e made by `node`: bind the parameters, push a frame; returns the helper's entry."""
+        name, call, args = self.helper_of(e[3]), e[3], e[2]
+        fd = self.helpers()[name]
+        if len(st.frames) >= MAX_HELPER_DEPTH or any(fr[2] == name for fr in st.frames):
+            raise AnalysisError("%s(): helper calls nest deeper than %d / recursively at %s() -- unclassifiable" % (
+                self.fname, MAX_HELPER_DEPTH, name))
+        ps = self.tu.fparams(fd)
+        if len(ps) != len(args) or fd.get("variadic"):
+            raise AnalysisError("%s(): call of %s() does not match its definition -- unclassifiable" % (self.fname, name))
+        if any(has_write(a) for a in args):
+            raise AnalysisError("%s(): side effect inside an argument of %s() -- unclassifiable" % (self.fname, name))
+        if not self.pure(name):
+            root = node.cond if node.kind in ("cond", "switch") else node.ast
+            cur, par = call, self.tu.parent.get(id(call))
+            while par is not None and cur is not root:
+                ks = kids(par)
+                if (kind(par) == "BinaryOperator" and par.get("opcode") in ("&&", "||") and len(ks) == 2 and ks[1] is cur) \
+                        or (kind(par) == "ConditionalOperator" and ks and ks[0] is not cur):
+                    raise AnalysisError("%s(): %s() has side effects and is called under a short-circuit operand of `%s` "
+                                        "-- unclassifiable" % (self.fname, name, ctext(root)))
+                cur, par = par, self.tu.parent.get(id(par))
+        terms = [self.term(a, st) for a in args]
+        for p, t in zip(ps, terms):
+            st.env[p.get("id")] = t
+        st.nser += 1
+        st.frames.append((node, call, name, st.nser))
+        st.ret, st.rtruth = None, None
+        return self.graph_of(name).entry
+
+    def leave(self, st):
+        """The followed helper reached its exit: the call takes the returned term; back to the calling node."""
+        node, call, name, _ = st.frames.pop()
+        st.env[("ret", id(call))] = st.ret if st.ret is not None else ("void",)
+        st.env[("rett", id(call))] = st.rtruth
+        st.ret, st.rtruth = None, None
+        return node
+
+    def argtext(self, a, st):
+        """Text of a call argument; inside a followed helper a parameter /
+        local that stands for an expression of the caller reads as that expression."""
+        if st.frames:
+            t = self.term(a, st)
+            if t[0] == "expr":
+                return t[1]
+        return ctext(a)
+
+    @staticmethod
+    def boolean_valued(e):
+        e = strip(e, casts=True)
+        return (kind(e) == "UnaryOperator" and e.get("opcode") == "!") or \
+            (kind(e) == "BinaryOperator" and e.get("opcode") in CMP + ("&&", "||"))
+
     # -- values -----------------------------------------------------------
     def is_subject(self, e):
         e = strip(e, casts=True)
+        if self.subject_id is not None and kind(e) == "DeclRefExpr":
+            return ref_id(e) == self.subject_id     # a helper's own `ch` is not the received octet
         if ctext(e) == self.subject:
             return True
         if self.ptr and kind(e) == "UnaryOperator" and e.get("opcode") == "*":
@@ -210,6 +383,8 @@ class Step:
         e = strip(e, casts=True)
         if e is None:
             return ("expr", "?")
+        if kind(e) == "CallExpr" and ("ret", id(e)) in st.env:
+            return st.env[("ret", id(e))]           # a followed helper call: the term it returned
         v = self.tu.fold(e)
         if v is not None:
             return ("const", v)
@@ -255,7 +430,7 @@ class Step:
 
     def mentions(self, e, st):
         for x in walk(e):
-            if kind(x) in ("DeclRefExpr", "MemberExpr", "UnaryOperator"):
+            if kind(x) in ("DeclRefExpr", "MemberExpr", "UnaryOperator", "CallExpr"):
                 t = self.term(x, st)
                 if t[0] in ("octet", "state"):
                     return True
@@ -266,6 +441,8 @@ class Step:
         something outside the vocabulary and not assumed on this path)."""
         e = strip(e)
         k = kind(e)
+        if k == "CallExpr" and st.env.get(("rett", id(e))) is not None:
+            return st.env[("rett", id(e))]          # truth of what a followed helper returned
         if k == "UnaryOperator" and e.get("opcode") == "!":
             r = self.ev(kids(e)[0], st, v)
             return None if r is None else (not r)
@@ -361,7 +538,7 @@ class Step:
         c = node.cond
         line = self.tu.line(node.ast) if node.ast else None
         for e in effects(c):
-            if e[0] != "call" or e[1] == "msgb_tailroom":
+            if e[0] != "call" or e[1] == "msgb_tailroom" or ("ret", id(e[3])) in st.env:
                 continue
             cur, par = e[3], self.tu.parent.get(id(e[3]))
             while par is not None and cur is not c:
@@ -371,7 +548,7 @@ class Step:
                     raise AnalysisError("%s(): %s() is called under a short-circuit operand of the condition `%s` -- "
                                         "unclassifiable" % (self.fname, e[1], ctext(c)))
                 cur, par = par, self.tu.parent.get(id(par))
-            st.events.append(("call", e[1], tuple(ctext(a) for a in e[2]),
+            st.events.append(("call", e[1], tuple(self.argtext(a, st) for a in e[2]),
                               tuple(self.term(a, st) for a in e[2]), node.id, line))
 
     # -- effects of one statement --------------------------------------------
@@ -394,7 +571,9 @@ class Step:
             tag = e[0]
             if tag == "call":
                 name, args = e[1], e[2]
-                st.events.append(("call", name, tuple(ctext(a) for a in args),
+                if ("ret", id(e[3])) in snap.env:
+                    continue                    # a helper whose statements were followed on this path
+                st.events.append(("call", name, tuple(self.argtext(a, snap) for a in args),
                                   tuple(self.term(a, snap) for a in args), node.id, line))
             elif tag in ("store", "decl"):
                 if tag == "decl":
@@ -428,6 +607,7 @@ class Step:
                 else:
                     st.events.append(("store", ltxt, t, node.id, line, self.lhs_shape(lhs, snap)))
                 self.invalidate(st, ltxt)
+                self.carry_truth(st, snap, lhs if tag == "store" else e[1], ltxt, rhs, t)
             elif tag == "compound":
                 lhs, op, rhs = e[1], e[2], e[3]
                 ltxt = ctext(lhs)
@@ -466,8 +646,34 @@ class Step:
                     st.events.append(("compound", ltxt, "++" if d > 0 else "--", ("const", 1), node.id, line))
                     self.invalidate(st, ltxt)
             elif tag == "return":
-                st.ret = self.term(e[1], snap) if e[1] is not None else ("void",)
-                st.events.append(("return", st.ret, node.id, line))
+                t = self.term(e[1], snap) if e[1] is not None else ("void",)
+                if st.frames:
+                    # return of a followed helper: the value goes to the call in the caller
+                    truth = self.ev(e[1], snap, self._v) if e[1] is not None else None
+                    if t[0] not in ("const", "octet", "state", "call") and truth is not None and self.boolean_valued(e[1]):
+                        t = ("const", int(truth))
+                    st.ret, st.rtruth = t, truth
+                    st.events.append(("hret", st.frames[-1][2], t, node.id, line))
+                else:
+                    st.ret = t
+                    st.events.append(("return", st.ret, node.id, line))
+
+    def carry_truth(self, st, snap, lhs, ltxt, rhs, t):
+        """After `lhs = rhs`: lhs is zero / non-zero when that is known of
+        the stored value (a null constant, or the pointer a followed helper
+        returned under a recorded path fact) and the store cannot narrow it."""
+        qt = (lhs.get("type", {}).get("qualType") or "") if lhs is not None else ""
+        truth = None
+        if t == ("const", 0):
+            truth = False
+        elif qt.endswith("*"):
+            r = strip(rhs, casts=True)
+            if kind(r) == "CallExpr":
+                truth = snap.env.get(("rett", id(r)))
+            elif ref_id(r) is not None and ctext(r) in snap.assume:
+                truth = snap.assume[ctext(r)]
+        if truth is not None and ltxt:
+            st.assume[ltxt] = truth
 
     def _advance(self, st, d, post, node, line):
         if st.pos is not None:
@@ -484,31 +690,51 @@ class Step:
         'stop'; after(node, st, n) runs after a statement node."""
         g = self.g
         done = []
+        self._v = v
 
         def go(node, st, seen):
+            resume = False
             while True:
-                if node is g.exit:
-                    done.append(st)
-                    return
-                n = seen.get(node.id, 0)
-                if n >= max_visits:
-                    # loop head seen again: assume the loop terminates here
-                    exits = [s for (s, l) in node.succ if node.kind == "cond" and l is False]
-                    if exits and ("exit", node.id) not in seen:
-                        st.events.append(("loopexit", node.id))
-                        seen = dict(seen)
-                        seen[("exit", node.id)] = 1
-                        node = exits[0]
+                if node.kind == "exit":
+                    if st.frames:
+                        node, resume = self.leave(st), True     # back to the node that made the call
                         continue
-                    st.events.append(("loopcut", node.id))
-                    st.ret = ("loopcut",)
                     done.append(st)
                     return
-                seen = dict(seen)
-                seen[node.id] = n + 1
-                if before is not None and before(node, st, n + 1) == "stop":
-                    done.append(st)
-                    return
+                if not resume:
+                    # visits are counted per activation of a followed helper
+                    key = node.id if not st.frames else (st.frames[-1][3], node.id)
+                    n = seen.get(key, 0)
+                    if n >= max_visits:
+                        # loop head seen again: assume the loop terminates here
+                        exits = [s for (s, l) in node.succ if node.kind == "cond" and l is False]
+                        if exits and ("exit", key) not in seen:
+                            st.events.append(("loopexit", node.id))
+                            seen = dict(seen)
+                            seen[("exit", key)] = 1
+                            node = exits[0]
+                            continue
+                        st.events.append(("loopcut", node.id))
+                        st.ret = ("loopcut",)
+                        done.append(st)
+                        return
+                    seen = dict(seen)
+                    seen[key] = n + 1
+                    self.forget_calls(node, st)
+                    if before is not None and before(node, st, n + 1) == "stop":
+                        done.append(st)
+                        return
+                    if node.kind == "cond" and node.cond is not None and has_write(node.cond):
+                        raise AnalysisError("%s(): side effect inside the condition `%s` -- unclassifiable" % (
+                            self.fname, ctext(node.cond)))
+                else:
+                    key = node.id if not st.frames else (st.frames[-1][3], node.id)
+                    n = seen.get(key, 1) - 1
+                resume = False
+                pc = self.pending_call(node, st) if node.kind in ("cond", "switch", "stmt") else None
+                if pc is not None:
+                    node = self.enter(node, pc, st)             # follow the helper first, then come back
+                    continue
                 if node.kind == "cond":
                     c = node.cond
                     r, ex, pol = None, None, True
@@ -576,7 +802,9 @@ class Step:
     def constants(self):
         """Octet values that may be special: constants compared or XOR-ed."""
         consts, masks = set(), {0}
-        for n in walk(self.tu.body(self.f)):
+        nodes = [n for fd in [self.f] + [self.helpers()[h] for h in self.reachable_helpers()]
+                 for n in walk(self.tu.body(fd))]
+        for n in nodes:
             k = kind(n)
             if k == "BinaryOperator" and n.get("opcode") in CMP + ("^",):
                 for c in kids(n):
@@ -749,7 +977,7 @@ class Rx:
             raise AnalysisError("%s(): signature changed" % RX_FN)
         if ps[0].get("type", {}).get("qualType") not in OCTET_TYPES:
             raise AnalysisError("%s(): the received octet is no longer an 8-bit unsigned value" % RX_FN)
-        self.step = Step(tu, RX_FN, ps[0]["name"], RXS)
+        self.step = Step(tu, RX_FN, ps[0]["name"], RXS, subject_id=ps[0].get("id"))
         self.step.cond_calls = True
         self.g = self.step.g
         self.own = own_functions(tu)
@@ -1065,7 +1293,49 @@ def r1_bounded_store(L, tu, tag, size, rx):
     g = rx.g
     L.fn(F, RX_FN)
     puts = calls_to(f, "msgb_put")
-    L.floor(R, "msgb_put sites in %s (%s build)" % (RX_FN, tag), len(puts), 2)
+    followed = rx.step.reachable_helpers()
+    hputs = [(h, c) for h in followed for c in calls_to(rx.step.helpers()[h], "msgb_put")]
+    for h in followed:
+        # a followed helper is covered by the walked paths of the receive step only: nobody else may call it
+        others = sorted(n for n, fn in own_functions(tu).items()
+                        if n != RX_FN and n not in followed and calls_to(fn, h))
+        if others and (hputs or any(kind(n) == "MemberExpr" and ctext(n) == RXM for n in walk(tu.body(rx.step.helpers()[h])))):
+            raise AnalysisError("%s() touches the receive buffer and is also called from %s, outside the analysed receive "
+                                "step -- unclassifiable" % (h, others))
+    L.floor(R, "msgb_put sites reached from %s (%s build)" % (RX_FN, tag), len(puts) + len(hputs), 1)
+    putting = {s for (s, v), paths in rx.tab.items() for p in paths
+               if Rx.room(p) is not False and any(a[0] == "put" for a in Rx.acts(p))}
+    L.floor(R, "receiver states whose step appends to the receive buffer (%s build)" % tag, len(putting), 2)
+    for (h, c) in hputs:
+        # a site inside a followed helper: decided on the walked paths that run through it
+        node = rx.step.graph_of(h).node_of(c)
+        a = call_args(c)
+        n = tu.fold(a[1])
+        if n is None:
+            raise AnalysisError("%s(): msgb_put length `%s` is not constant -- unclassifiable" % (h, ctext(a[1])))
+        L.fn(F, h)
+        bufs, least, npaths = set(), None, 0
+        for p in unique_paths(rx.tab):
+            lo = 0
+            for e in p.events:
+                if e[0] == "fork":
+                    b = room_bounds(e[3]).get(RXM)
+                    if b is not None:
+                        lo = max(lo, b[0])
+                elif e[0] == "store" and e[1] == RXM:
+                    lo = 0
+                elif e[0] == "call" and e[1] == "msgb_put" and e[4] == node.id:
+                    npaths += 1
+                    bufs.add(e[2][0])
+                    least = lo if least is None else min(least, lo)
+                    lo -= n
+        if not npaths:
+            raise AnalysisError("%s(): msgb_put is on no walked path of %s -- unclassifiable" % (h, RX_FN))
+        where = "helper %s()" % h
+        L.require(R, F, h, "msgb_put in %s appends to the receive buffer" % where, [RXM], sorted(bufs), line=tu.line(c))
+        L.ob(R, F, h, "msgb_put in %s is preceded on every path of the receive step by a tailroom test on the same buffer "
+             "that leaves room for the appended octets" % where, "msgb_tailroom(%s) >= %d on every path to the call" % (RXM, n),
+             "msgb_tailroom >= %d guaranteed" % least, least >= n, tu.line(c))
     for i, c in enumerate(puts):
         node = g.node_of(c)
         a = call_args(c)
@@ -1163,7 +1433,7 @@ def r1_bounded_store(L, tu, tag, size, rx):
                 n, par = par, tu.parent.get(id(par))
             pk = kind(par)
             if pk == "BinaryOperator" and par.get("opcode") == "=" and kids(par)[0] is n:
-                if name not in ("sercomm_init", RX_FN):
+                if name not in ("sercomm_init", RX_FN) and name not in followed:
                     raise AnalysisError("%s() assigns %s: writer outside the analysed receive step -- unclassifiable"
                                         % (name, RXM))
                 L.ob(R, F, name, "assignment of the receive buffer pointer", "only in sercomm_init / %s" % RX_FN,
@@ -1172,7 +1442,7 @@ def r1_bounded_store(L, tu, tag, size, rx):
                 callee = ctext(kids(par)[0])
                 if callee in allowed:
                     if callee in ("msgb_put", "dispatch_rx_msg"):
-                        if name != RX_FN:
+                        if name != RX_FN and name not in followed:
                             raise AnalysisError("%s() calls %s on the receive buffer: not covered by the tailroom "
                                                 "analysis of %s -- unclassifiable" % (name, callee, RX_FN))
                         L.ob(R, F, name, "%s on the receive buffer" % callee, "only in %s" % RX_FN, name,
@@ -1371,7 +1641,8 @@ def r2_tx(L, tu, tag, tx):
         kinds_ = [a[0] for a in acts if a[0] in ("dequeue", "msg", "emit", "setptr", "advance", "xor", "free")]
         sp = [a[1] for a in acts if a[0] == "setptr"]
         if len(em) == 1 and em[0][0] == "const" and kinds_[:2] == ["dequeue", "msg"] and \
-                sorted(kinds_[2:]) == ["emit", "setptr"] and sp == [TXM + "->data"] and p.ret == ("const", 1):
+                sorted(kinds_[2:]) == ["emit", "setptr"] and sp == [TXM + "->data"] and p.ret == ("const", 1) \
+                and p.scur != K.esc_state:      # the first octet (address) must be classified, not sent as "already escaped"
             starts.add(em[0][1])
         else:
             bad.add(tx.describe(tx.sig(p)))
@@ -1388,20 +1659,15 @@ def r2_tx(L, tu, tag, tx):
     ctx = set()
     if K.esc == K.flag:
         ctx.add("mid-frame: escaping branch emits %s" % hx(K.flag))
-    sites = 0
-    f = tu.func(TX_FN)
-    for e in effects(tu.body(f)):
-        if e[0] == "store" and kind(e[1]) == "UnaryOperator" and e[1].get("opcode") == "*" and \
-                ctext(kids(e[1])[0]) == tx.out and tu.fold(e[2]) == K.flag:
+    # decided on the walked paths (wherever the stores are written): a path with a message in progress that
+    # emits the flag constant must be the end-of-message path; the idle paths that emit it were checked above
+    sites = n_emit
+    for (s_, v_, end), sig in sorted(tx.rows.items(), key=str):
+        if any(a[0] == "emit" and a[1] == ("const", K.flag) for a in sig[1]):
             sites += 1
-            node = tx.g.node_of(e[3])
-            # a flag store is a start store iff it is guarded by the idle test, an end store iff guarded by the end test
-            lits = tx.g.guard_lits(node)
-            is_start = (TXM, False) in lits
-            is_end = ("%s < %s->tail" % (TXP, TXM), False) in lits or ("%s->tail == %s" % (TXM, TXP), True) in lits
-            if not (is_start or is_end):
-                ctx.add("mid-frame: flag stored under %s" % sorted(("" if p else "!") + t for t, p in lits))
-    L.floor(R, "flag emission sites (%s build)" % tag, sites, 2)
+            if end is not True:
+                ctx.add("mid-frame: flag emitted in %s with octets left to send (%s)" % (sname(tx.names, s_), tx.describe(sig)))
+    L.floor(R, "walked paths that emit the flag octet (%s build)" % tag, sites, 2)
     L.require(R, F, TX_FN, "the flag octet is emitted only as first (after dequeue) and last (end of message) octet of a "
               "frame", [], sorted(ctx))
     # one octet per successful pull
@@ -1685,6 +1951,10 @@ def r4_index_bounds(L, tu, tag):
                 if node.kind == "cond" and node.cond is not None:
                     lits |= context_lits(tu, node.cond, sub)
                 b = index_bound(lits, it)
+                if b is None and kind(strip(idx, casts=True)) not in ("DeclRefExpr", "MemberExpr"):
+                    # arithmetic on the counter (`i - 1`, `n - i`): its range is not decided by matching guard literals
+                    raise AnalysisError("%s(): index expression `%s` into %s is not a plain variable and no guard bounds it "
+                                        "directly -- unclassifiable" % (name, it, base))
                 L.ob(R, F, name, "index `%s` into %s[] is used only below the array extent" % (it, base.split(".")[-1]),
                      "%s < %d on every path" % (it, ext), "%s < %s" % (it, b) if b is not None else "no upper bound",
                      b is not None and b <= ext, tu.line(sub))
@@ -1721,7 +1991,7 @@ def r4_sendmsg(L, tu):
     pn = [p.get("name") for p in tu.fparams(fn)]
     if len(pn) != 2:
         raise AnalysisError("sercomm_sendmsg(): signature changed")
-    stp = Step(tu, "sercomm_sendmsg", pn[0], "<no state>")
+    stp = Step(tu, "sercomm_sendmsg", pn[0], "<no state>", subject_id=tu.fparams(fn)[0].get("id"))
     hdrs, enq = set(), set()
     for p in stp.paths(0, 0x41):
         push, stores, q = None, {}, []
@@ -1747,35 +2017,56 @@ def r4_queue_scan(L, tu, tx):
     sercomm_drv_pull, not on where the tests are written.  The k-th
     execution of the dequeue is followed under both outcomes (NULL / a
     message); the first iteration has the counter as a constant, the second
-    one (counter opaque after the increment) stands for every later one."""
+    one (counter opaque after the increment) stands for every later one.
+    The scan may be written in sercomm_drv_pull itself or in a helper it
+    calls: the walked paths of the pull step run through followed helpers,
+    so the same questions are asked of the same paths either way."""
     R = "C06.R4"
-    f = tu.func(TX_FN)
-    g = tx.g
     step = tx.step
-    dq = calls_to(f, "msgb_dequeue")
-    L.require(R, F, TX_FN, "msgb_dequeue call sites", 1, len(dq))
-    if len(dq) != 1:
+    # the dequeue: in the step function or in a helper whose statements the step follows
+    sites = [(TX_FN, tx.g, c) for c in calls_to(tu.func(TX_FN), "msgb_dequeue")]
+    for h in step.reachable_helpers():
+        sites += [(h, None, c) for c in calls_to(step.helpers()[h], "msgb_dequeue")]
+    L.require(R, F, TX_FN, "msgb_dequeue call sites", 1, len(sites))
+    if len(sites) != 1:
         return
-    c = dq[0]
+    SCAN_FN, g, c = sites[0]
+    if g is None:
+        g = step.graph_of(SCAN_FN)
+        L.fn(F, SCAN_FN)
+        followed = step.reachable_helpers()
+        others = sorted(n for n, fn in own_functions(tu).items()
+                        if n != TX_FN and n not in followed and calls_to(fn, SCAN_FN))
+        if others:
+            raise AnalysisError("%s() dequeues transmit messages and is also called from %s, outside the analysed pull step "
+                                "-- unclassifiable" % (SCAN_FN, others))
     a = strip(call_args(c)[0], casts=True)
     sub = strip(kids(a)[0]) if kind(a) == "UnaryOperator" and a.get("opcode") == "&" else None
     if sub is None or kind(sub) != "ArraySubscriptExpr" or ctext(kids(sub)[0]) != QUEUES:
         raise AnalysisError("%s(): msgb_dequeue argument `%s` unclassifiable" % (TX_FN, ctext(a)))
     ivn = strip(kids(sub)[1], casts=True)
     iv, ivid = ctext(ivn), ref_id(ivn)
-    if ivid is None or ivid in step.params:
-        raise AnalysisError("%s(): queue index `%s` is not a local counter -- unclassifiable" % (TX_FN, iv))
+    if ivid is None or ivn.get("referencedDecl", {}).get("kind") != "VarDecl" or ivid in tu_globals(tu):
+        raise AnalysisError("%s(): queue index `%s` is not a local counter -- unclassifiable" % (SCAN_FN, iv))
     ext = array_extent(strip(kids(sub)[0]).get("type", {}).get("qualType"))
     D = g.node_of(c)
     line = tu.line(c)
     par = tu.parent.get(id(c))
     while par is not None and kind(par) in ("ImplicitCastExpr", "ParenExpr", "CStyleCastExpr"):
         par = tu.parent.get(id(par))
-    dst = ctext(kids(par)[0]) if kind(par) == "BinaryOperator" and par.get("opcode") == "=" else None
-    if dst != TXM or D.kind != "stmt":
-        raise AnalysisError("%s(): the result of msgb_dequeue goes to `%s`, not directly to %s -- unclassifiable"
-                            % (TX_FN, dst, TXM))
-    L.require(R, F, TX_FN, "the dequeued message becomes the message in progress", TXM, dst, line=line)
+    # where the result goes first: the message in progress itself, or a local that is handed on
+    dst, dst_local = None, False
+    if kind(par) == "BinaryOperator" and par.get("opcode") == "=":
+        lhs = strip(kids(par)[0])
+        dst = ctext(lhs)
+        dst_local = kind(lhs) == "DeclRefExpr" and lhs.get("referencedDecl", {}).get("kind") == "VarDecl" \
+            and ref_id(lhs) not in tu_globals(tu)
+    elif kind(par) == "VarDecl" and par.get("id") not in tu_globals(tu) and par.get("storageClass") != "static":
+        dst, dst_local = par.get("name"), True
+    if D.kind != "stmt" or not (dst == TXM or dst_local):
+        raise AnalysisError("%s(): the result of msgb_dequeue goes to `%s`, neither to %s nor to a local -- unclassifiable"
+                            % (SCAN_FN, dst, TXM))
+    DQ_TERM = ("call", "msgb_dequeue", ctext(c))
 
     def walk_scan(outcomes, idle=True):
         def before(node, st, n):
@@ -1787,7 +2078,7 @@ def r4_queue_scan(L, tu, tx):
 
         def after(node, st, n):
             if node is D:
-                st.assume[TXM] = outcomes[n - 1]
+                st.assume[dst] = outcomes[n - 1]
                 st.events.append(("got", n, outcomes[n - 1]))
         return step.paths(0, 0x41, assume={TXM: not idle}, max_visits=len(outcomes) + 2, before=before, after=after)
 
@@ -1823,9 +2114,9 @@ def r4_queue_scan(L, tu, tx):
         """literals the scan may depend on: counter bound, emptiness of the
         queue under the counter, the message in progress"""
         bad = sorted(("" if pl else "!") + t for (t, pl) in lits
-                     if not (t.startswith(iv + " < ") or t.endswith(" < " + iv) or t == EMPTY or t == TXM))
+                     if not (t.startswith(iv + " < ") or t.endswith(" < " + iv) or t in (EMPTY, TXM, dst)))
         if bad:
-            raise AnalysisError("%s(): %s depends on %s -- unclassifiable" % (TX_FN, where, bad))
+            raise AnalysisError("%s(): %s depends on %s -- unclassifiable" % (SCAN_FN, where, bad))
 
     # message in progress: no dequeue at all
     busy = [p for p in walk_scan([], idle=False) if any(e[0] == "again" for e in p.events)]
@@ -1853,7 +2144,7 @@ def r4_queue_scan(L, tu, tx):
             # no dequeue on this path: every queue was skipped as empty / the counter ran out
             vocabulary(fork_lits(p.events), "an idle path without dequeue")
     if "not constant" in first:
-        raise AnalysisError("%s(): first queue index `%s` is not a constant -- unclassifiable" % (TX_FN, iv))
+        raise AnalysisError("%s(): first queue index `%s` is not a constant -- unclassifiable" % (SCAN_FN, iv))
     # after an empty queue (first and every later iteration)
     steps, early, overrun = set(), [], []
     for outcomes in ([False], [False, False]):
@@ -1892,13 +2183,14 @@ def r4_queue_scan(L, tu, tx):
         down = all(len(x) == 1 and x[0][0] in ("--", "-=") for x in steps)
         if not down and not all(len(x) == 1 and x[0][0] in ("++", "--", "+=", "-=") and isinstance(x[0][1], int) for x in steps):
             raise AnalysisError("%s(): queue counter `%s` is updated by %s between two dequeues -- unclassifiable"
-                                % (TX_FN, iv, desc))
+                                % (SCAN_FN, iv, desc))
     L.ob(R, F, TX_FN, "transmit queues are scanned in ascending DLCI order starting at queue 0 (lower DLCI first)",
          "first index 0; +1 after every empty queue", "first index %s; counter updates %s" % (sorted(first, key=str), desc),
          first == {0} and bool(steps) and steps <= good_step, line)
     L.require(R, F, TX_FN, "every queue is examined: without a message the scan ends only behind the last queue "
               "(index %d)" % (ext - 1), [], sorted(set(early)), line=line)
     # after a message was found (first and every later iteration)
+    holders, nfound = set(), 0
     for outcomes in ([True], [False, True]):
         k = len(outcomes)
         for p in walk_scan(outcomes):
@@ -1907,16 +2199,39 @@ def r4_queue_scan(L, tu, tx):
                 continue
             if truncated(seg):
                 continue
+            nfound += 1
             if any(e[0] == "again" for e in seg):
                 overrun.append("another queue is dequeued after a message was found")
-            if any(e[0] == "store" and e[1] == TXM for e in seg):
+                continue
+            # where the message found ends up: the stores to the message in progress on the rest of the path
+            # (none when the dequeue itself wrote it; exactly the dequeued value when it came through a local)
+            st_ = [e[2] for e in seg if e[0] == "store" and e[1] == TXM]
+            if dst == TXM:
+                if st_:
+                    overrun.append("%s overwritten after a message was found" % TXM)
+                holders.add(TXM)
+            elif not st_:
+                holders.add("`%s` only (never stored to %s)" % (dst, TXM))
+            elif any(t != DQ_TERM for t in st_):
                 overrun.append("%s overwritten after a message was found" % TXM)
+                holders.add(TXM)
+            else:
+                holders.add(TXM)
+    if not nfound:
+        raise AnalysisError("%s(): no complete path after a successful msgb_dequeue was walked -- unclassifiable" % SCAN_FN)
+    L.require(R, F, TX_FN, "the dequeued message becomes the message in progress", TXM,
+              TXM if holders == {TXM} else sorted(holders), line=line)
     L.require(R, F, TX_FN, "the scan stops at the first non-empty queue: nothing more is dequeued and the message found "
               "is kept (a queue is reached only after every lower one returned NULL)", [], sorted(set(overrun)), line=line)
 
 
 def ctext_term(t):
     return t[1] if len(t) > 1 else t[0]
+
+
+def tu_globals(tu):
+    """Declaration ids of the file-scope variables."""
+    return {d.get("id") for d in kids(tu.ast) if kind(d) == "VarDecl"}
 
 
 def r4_msgb(L):
